@@ -31,9 +31,10 @@ const (
 	OpChoice  // explicit environment choice
 	OpTimer   // pseudo: a timer fires
 	OpUnlock  // only used for race bookkeeping (not a scheduling point)
+	OpQuiesce // harness: runs only when nothing else can (no enabled thread, no timer)
 )
 
-var opNames = [...]string{"start", "lock", "rlock", "atomic", "send", "recv", "select", "yield", "wait", "io", "go", "choice", "timer", "unlock"}
+var opNames = [...]string{"start", "lock", "rlock", "atomic", "send", "recv", "select", "yield", "wait", "io", "go", "choice", "timer", "unlock", "quiesce"}
 
 func (k OpKind) String() string { return opNames[k] }
 
@@ -116,6 +117,8 @@ type Sched struct {
 	// and returns true to continue.
 	OnQuiescent func() bool
 	RandCalls   int
+	// QuiesceLivelock: at the last quiescence some thread was parked in a yield loop
+	QuiesceLivelock bool
 	objIDs      map[any]int
 	parkedSnap  map[int]OpKind
 	stopReq     bool
@@ -236,6 +239,26 @@ func GoNamed(name string, fn func()) *Thread {
 	return t
 }
 
+// AwaitQuiescence parks the calling (harness) thread until no other thread can take a step and
+// no timer is armed: every other thread is finished or blocked.
+func AwaitQuiescence() {
+	if Cur == nil {
+		return
+	}
+	Point(OpQuiesce, nil, func() bool { return false })
+}
+
+// ThreadsState lists the unfinished threads with the kind of operation they are parked on.
+func (s *Sched) ThreadsState() map[int]OpKind {
+	m := map[int]OpKind{}
+	for _, t := range s.threads {
+		if !t.done && t != s.cur {
+			m[t.ID] = t.kind
+		}
+	}
+	return m
+}
+
 // Stop ends the execution from inside a thread (terminal state "stopped").
 func Stop() {
 	s := Cur
@@ -266,7 +289,7 @@ func Point(kind OpKind, obj any, enabled func() bool) {
 		t.yieldAt = s.epoch
 	}
 	// fast path: nobody else can run
-	if s.live == 1 && !s.stopReq && (enabled == nil || enabled()) && kind != OpYield && !(s.TimerAlts && s.armedTimers() > 0) && s.Step < s.Horizon {
+	if s.live == 1 && !s.stopReq && (enabled == nil || enabled()) && kind != OpYield && kind != OpQuiesce && !(s.TimerAlts && s.armedTimers() > 0) && s.Step < s.Horizon {
 		if s.TraceOn {
 			s.Trace = append(s.Trace, fmt.Sprintf("%d:%s", t.ID, kind))
 		}
@@ -309,7 +332,7 @@ func (s *Sched) exitThread(t *Thread) {
 }
 
 func (s *Sched) isEnabled(t *Thread) bool {
-	if t.done || !t.parked {
+	if t.done || !t.parked || t.kind == OpQuiesce {
 		return false
 	}
 	if t.kind == OpYield {
@@ -402,6 +425,23 @@ func (s *Sched) pick(cur *Thread) *Thread {
 			}
 			if s.OnQuiescent != nil && s.OnQuiescent() {
 				continue
+			}
+			// a harness thread waiting for quiescence runs now
+			var qt *Thread
+			for _, t := range s.threads {
+				if !t.done && t.parked && t.kind == OpQuiesce {
+					qt = t
+					break
+				}
+			}
+			if qt != nil {
+				s.QuiesceLivelock = false
+				for _, t := range s.threads {
+					if !t.done && t.parked && t.kind == OpYield && t != qt {
+						s.QuiesceLivelock = true
+					}
+				}
+				return qt
 			}
 			// terminal
 			parked, yielders := 0, 0
